@@ -8,6 +8,8 @@ package fasthttp
 //  (1) handler level: file sizes x Range header values (RFC 9110 section 14 grammar, boundary positions, malformed and
 //      multi-range forms) x Accept-Encoding x If-Modified-Since x {GET,HEAD} x {os Root, fs.FS} x {cache, SkipCache},
 //      every response serialised with Response.Write and re-parsed by net/http.ReadResponse (what a peer would see);
+//  (1b) histories of 2..3/4 requests (plain GET, HEAD, GET+gzip, satisfiable range at start / middle / suffix,
+//      unsatisfiable range) on one handler instance and one file: pooled readers and cached handles carry state;
 //  (2) ParseByteRange alone on every string of at most 7/8 symbols over a small alphabet.
 //
 // Oracle: c24Eval (own transcription of RFC 9110 14.1.1/14.1.2/14.2/13.1.3), cross-checked on every (size, Range,
@@ -665,6 +667,74 @@ func (c *c24Counts) flush(r *vrt.R) {
 }
 
 // ---------------------------------------------------------------------------------------------------------------
+// request histories on one handler instance (pooled readers and cached file handles carry state between requests)
+
+type c24Op struct {
+	Name   string
+	Method string
+	AE     string
+	rng    func(n int) string
+}
+
+func c24HistK(n int) int { return max(1, min(100, n/3)) }
+
+var c24Ops = []c24Op{
+	{"get", "GET", "", func(int) string { return "" }},
+	{"head", "HEAD", "", func(int) string { return "" }},
+	{"get-gzip", "GET", "gzip", func(int) string { return "" }},
+	{"range-start", "GET", "", func(n int) string { return fmt.Sprintf("bytes=0-%d", c24HistK(n)-1) }},
+	{"range-middle", "GET", "", func(n int) string { m := n / 2; return fmt.Sprintf("bytes=%d-%d", m, min(m+c24HistK(n)-1, n-1)) }},
+	{"range-suffix", "GET", "", func(n int) string { return fmt.Sprintf("bytes=-%d", c24HistK(n)) }},
+	{"range-unsatisfiable", "GET", "", func(n int) string { return fmt.Sprintf("bytes=%d-", n) }},
+}
+
+type c24HistCase struct {
+	Mode    string   `json:"mode"` // "history"
+	Variant string   `json:"variant"`
+	Kind    string   `json:"kind"`
+	N       int      `json:"n"`
+	Ops     []string `json:"ops"`
+}
+
+// c24RunHistory issues the ops one after another on a fresh handler instance; every response is judged by the same
+// oracle as the independent requests and read completely.
+func c24RunHistory(r *vrt.R, cio *c24IO, dir string, vr c24Variant, f *c24File, ops []int, cnt *c24Counts) {
+	stop := make(chan struct{})
+	defer close(stop)
+	h := c24NewHandler(dir, vr, stop)
+	var ctx RequestCtx
+	ctx.Init(&Request{}, nil, c24NopLogger{})
+	prev := "first"
+	for i, oi := range ops {
+		op := c24Ops[oi]
+		rng := op.rng(f.N)
+		v := c24Eval(rng, "", f.N)
+		res := c24Do(cio, h, &ctx, op.Method, "/"+f.name, rng, op.AE, "")
+		if sig, what := c24CheckResp(cio, f, op.Method, op.AE, v, "absent", res); sig != "" {
+			names := make([]string, 0, i+1)
+			for _, x := range ops[:i+1] {
+				names = append(names, c24Ops[x].Name)
+			}
+			r.Violation("history:"+sig+":op="+op.Name+":after="+prev,
+				fmt.Sprintf("request %d of the history %v on one handler [%s], file %s size=%d: %s Range=%q Accept-Encoding=%q: status %d: %s",
+					i+1, names, vr.Name, f.name, f.N, op.Method, rng, op.AE, res.Status, what),
+				c24HistCase{Mode: "history", Variant: vr.Name, Kind: f.Kind, N: f.N, Ops: names})
+		}
+		switch res.Status {
+		case 200:
+			cnt.st200++
+		case 206:
+			cnt.st206++
+		case 416:
+			cnt.st416++
+		default:
+			cnt.stOther++
+		}
+		prev = op.Name
+	}
+}
+
+// ---------------------------------------------------------------------------------------------------------------
 // ParseByteRange alone
 
 func c24ParseCase(r *vrt.R, s []byte, cl int) (accepted bool) {
@@ -704,6 +774,35 @@ func c24Replay(t *testing.T, r *vrt.R, rp json.RawMessage) {
 	var a c24Case
 	if err := json.Unmarshal(rp, &a); err != nil {
 		r.ToolError("bad replay artefact: %v", err)
+	}
+	if a.Mode == "history" {
+		var hc c24HistCase
+		if err := json.Unmarshal(rp, &hc); err != nil {
+			r.ToolError("bad history artefact: %v", err)
+		}
+		dir := t.TempDir()
+		files, err := c24MakeFiles(dir, []int{hc.N})
+		if err != nil {
+			r.ToolError("files: %v", err)
+		}
+		var ops []int
+		for _, name := range hc.Ops {
+			for i, op := range c24Ops {
+				if op.Name == name {
+					ops = append(ops, i)
+				}
+			}
+		}
+		var cnt c24Counts
+		for _, vr := range c24Variants {
+			for _, f := range files {
+				if vr.Name == hc.Variant && f.Kind == hc.Kind {
+					c24RunHistory(r, c24NewIO(), dir, vr, f, ops, &cnt)
+					r.Eval(len(ops))
+				}
+			}
+		}
+		return
 	}
 	rng, err := strconv.Unquote(a.Range)
 	if err != nil {
@@ -758,6 +857,8 @@ func TestVerif_C24(t *testing.T) {
 		"x Accept-Encoding %q x If-Modified-Since {absent,mtime-1s,=mtime,mtime+1s,garbage} x {GET,HEAD}; each response is serialised by Response.Write and re-read with net/http.ReadResponse. "+
 		"Oracle: RFC 9110 section 14 evaluator (c24Eval), cross-checked against net/http.ServeContent on every (size,Range,IMS,method): strict single range => 206+slice+Content-Range or 416; "+
 		"relaxed forms => 200-full/416/self-consistent 206; 304 to the second; 200 bodies decode to the file; HEAD == GET headers, no body. "+
+		"(1b) every history of 2..%d requests over the ops {get, head, get-gzip, range-start, range-middle, range-suffix, range-unsatisfiable} on ONE fresh handler instance and one file "+
+		"(sizes >= 10 on both sides of the 8 KiB threshold, all variants), each response judged by the same oracle and fully read. "+
 		"(2) ParseByteRange on every string of <=%d symbols over %q for contentLength in {0,1,10}: accepted => 0<=start<=end<length, and agreement with the evaluator on strict forms. "+
 		"Non-trivial: cases with a Range/IMS/Accept-Encoding dimension active (reference verdict other than a plain 200) and ParseByteRange inputs that are accepted or strict-form.",
 		func() []string {
@@ -766,7 +867,7 @@ func TestVerif_C24(t *testing.T) {
 				s = append(s, v.Name)
 			}
 			return s
-		}(), sizes, c24AEs, maxLen, alpha))
+		}(), sizes, c24AEs, vrt.Pick(r, 3, 4), maxLen, alpha))
 	r.Set("accept_encodings", c24AEs)
 	r.Assume("net/http.ServeContent as second reference, with two documented deviations (empty file => 200; zero-length suffix => empty 206)",
 		"net/http.ReadResponse as the judge of response framing; compress/gzip, andybalholm/brotli and klauspost/compress/zstd decoders",
@@ -839,6 +940,72 @@ func TestVerif_C24(t *testing.T) {
 		}
 		return nil
 	})
+
+	// ---- (1b) histories of requests on one handler instance and one file
+	histLen := vrt.Pick(r, 3, 4)
+	var histSizes []int
+	for _, n := range sizes {
+		if n >= 10 { // both sides of the 8 KiB small/big threshold; tiny files have no distinct start/middle/suffix ranges
+			histSizes = append(histSizes, n)
+		}
+	}
+	r.Set("history_length", histLen)
+	r.Set("history_ops", func() (o []string) {
+		for _, op := range c24Ops {
+			o = append(o, op.Name)
+		}
+		return
+	}())
+	r.Set("history_file_sizes", histSizes)
+	type hshard struct {
+		v   c24Variant
+		dir string
+		f   *c24File
+	}
+	var hshards []hshard
+	for _, v := range c24Variants {
+		dir := filepath.Join(base, "hist-"+v.Name)
+		if err := os.Mkdir(dir, 0o755); err != nil {
+			r.ToolError("mkdir: %v", err)
+		}
+		files, err := c24MakeFiles(dir, histSizes)
+		if err != nil {
+			r.ToolError("files: %v", err)
+		}
+		for _, f := range files {
+			hshards = append(hshards, hshard{v, dir, f})
+		}
+	}
+	t1 := time.Now()
+	r.Par(len(hshards), func(i int) {
+		sh := hshards[i]
+		cio := c24NewIO()
+		defer cio.zd.Close()
+		var cnt c24Counts
+		n, hn := 0, int64(0)
+		seqx.Sequences(len(c24Ops), histLen, func(seq []int) bool {
+			if len(seq) < 2 {
+				return true // single requests are part (1)
+			}
+			c24RunHistory(r, cio, sh.dir, sh.v, sh.f, seq, &cnt)
+			n += len(seq)
+			hn++
+			r.NontrivialHash(c24hash([]byte(fmt.Sprint(sh.v.Name, sh.f.name, seq)), len(seq)))
+			if hn&63 == 0 && r.Expired() {
+				r.NotExhaustive("time budget reached in history shard " + sh.v.Name + "/" + sh.f.name)
+				return false
+			}
+			return true
+		})
+		r.Eval(n)
+		r.Add("histories", hn)
+		r.Add("history_requests", int64(n))
+		r.Add("history_responses_200", cnt.st200)
+		r.Add("history_responses_206", cnt.st206)
+		r.Add("history_responses_416", cnt.st416)
+		r.Add("history_responses_other_status", cnt.stOther)
+	})
+	r.Set("history_part_wall_s", time.Since(t1).Seconds())
 
 	// ---- (2) ParseByteRange alone
 	k := len(alpha)
